@@ -188,6 +188,16 @@ static bool gt_ops(const char* op) {
     const embedded_pairing_bls12_381_fq12_t* cb = (const embedded_pairing_bls12_381_fq12_t*) &b;
     const embedded_pairing_core_bigint_256_t* ck = (const embedded_pairing_core_bigint_256_t*) &k;
     OP("mul") { ld(1, a); ldB(2, k); embedded_pairing_bls12_381_gt_multiply(co, ca, ck); st(o); return true; }
+    // in-place forms (result object == base): the C API allows them and the Go binding uses them
+    OP("mulip") { ld(1, o); ldB(2, k); embedded_pairing_bls12_381_gt_multiply(co, co, ck); st(o); return true; }
+    OP("poxip") { PowersOfX s; ld(1, o); for (int i = 0; i < 4; i++) ldB(2 + i, s.c[i]); o.exponentiate_gt(o, s); st(o); return true; }
+    OP("nodivip") { ld(1, o); ldB(2, k); o.exponentiate_gt_nodiv(o, k); st(o); return true; }
+    OP("mulrandip") {
+        BigInt<256> y; poison(&y, sizeof y);
+        ld(1, o); rng_script(arg(2));
+        embedded_pairing_bls12_381_gt_multiply_random(co, (embedded_pairing_core_bigint_256_t*) &y, co, rng_cb);
+        st(o); stB(y); put_rng_log(); return true;
+    }
     OP("add") { ld(1, a); ld(2, b); embedded_pairing_bls12_381_gt_add(co, ca, cb); st(o); return true; }
     OP("dbl") { ld(1, a); embedded_pairing_bls12_381_gt_double(co, ca); st(o); return true; }
     OP("neg") { ld(1, a); embedded_pairing_bls12_381_gt_negate(co, ca); st(o); return true; }
